@@ -20,7 +20,8 @@ package v6ref
 //	Reject       a label or the second pointer octet overruns the buffer
 //	Unspecified  label types 01/10; a pointer whose offset is outside the
 //	             buffer; a target whose labels run to the end of the buffer
-//	             without 00; pointers that loop; a name longer than 255 octets
+//	             without 00; pointers that loop
+//	(a name longer than 255 octets is a Reject: RFC 1035 §3.1)
 //
 // The option-specific two-valued classes (partial name outside option 39, more
 // than one name in 39 and 56/3, empty list in 24) are applied by the caller from
@@ -112,7 +113,7 @@ func nameList(b []byte, build bool) (names []string, v Verdict, why string, info
 					walked++
 					if walked > 130 {
 						// the name under construction already exceeds 255 octets
-						return nil, Unspecified, WhyNameLong, info
+						return nil, Reject, WhyNameLong, info
 					}
 				}
 			}
@@ -137,7 +138,7 @@ func nameList(b []byte, build bool) (names []string, v Verdict, why string, info
 	}
 	switch {
 	case long:
-		return nil, Unspecified, WhyNameLong, info
+		return nil, Reject, WhyNameLong, info
 	case chain:
 		return names, MayReject, WhyNamePtrChain, info
 	case ptr:
